@@ -14,6 +14,7 @@ import (
 	"fmt"
 	"math"
 	"net"
+	"strings"
 	"testing"
 	"time"
 
@@ -218,7 +219,7 @@ func TestRaceAudit(t *testing.T) {
 	var cases []ra.Case
 	for _, e := range table() {
 		e := e
-		cases = append(cases, ra.Case{Key: e.name, Fn: func(g int) string {
+		cases = append(cases, ra.Case{Key: strings.Replace(e.name, ".", "|", 1), Fn: func(g int) string {
 			m, err := e.mk()
 			if err != nil {
 				return ra.Sum("constructor", err)
